@@ -32,7 +32,7 @@ PROPS = {
     'C13': P('proof', ['C13'], 'totality and code validity: theorems + correspondence on special floats + search in optimised and checked builds', builds=['default', 'checked'], partial=['finite inputs in [0,1]^3 give finite outputs: oracle only; overflow/debug-checked builds: usize arithmetic is modelled on Nat, the checked build is exercised by correspondence + oracle']),
     'C14': P('proof', ['C14'], 'support/error contract decided over all 3276 triples by `decide` on the model + exhaustive correspondence of all triples'),
     'C15': P('proof', ['C15'], 'Unspecified resolution: mpv table for all sizes, label theorems + exhaustive correspondence + content oracle'),
-    'C16': P('proof', ['C16'], 'neutral axis and anchors: exhaustive/evaluated theorems + correspondence on every luma code + search', partial=['YUV->RGB grey axis proved exhaustively (native_decide); curve anchors in Props/C03; primaries/XYB/HSL grey clauses: correspondence + oracle only']),
+    'C16': P('proof', ['C16'], 'neutral axis and anchors: exhaustive/evaluated theorems + correspondence on every luma code + search'),
     'C17': P('proof', ['C17'], 'HSL: range/anchor theorems + correspondence + f64 hexcone oracle'),
     'C18': P('proof', ['C18'], 'fast math helpers: totality for every bit pattern, oddness, range theorems; accuracy theorems as listed + correspondence + search', partial=['cbrtf 1 ulp / oddness, powf 2.5e-4+8e-6|y|, expf 1e-5 and its overflow/underflow ranges: not proved; correspondence + oracle (all 2^32 arguments in the thorough tier)']),
     'C19': P('proof', ['C19'], '3x3 algebra: exact structural theorems (transpose involution, ...) + accuracy as listed + correspondence f32/f64 + exact oracle', partial=['accuracy clauses (1e-5 relative, A*invert(A)=I within 1e-4): not proved; correspondence f32/f64 + exact oracle']),
